@@ -366,8 +366,8 @@ def chk_stop_evaluating(F, E, body, s):
     if recv[0] != "call" or not sfx(recv[1], "Interpreter::run_next_statement"):
         return False
     rn = recv[3]
-    sets = body.calls_to("Program::set_and_goto_immediate_line")
-    return any(body.dominates(c.bb, rn.bb) and "Vec::new" in show(body.expr(c.args[1])) for c in sets)
+    from lib import immediate_line_emptied_by
+    return any(body.dominates(c.bb, rn.bb) for c in immediate_line_emptied_by(F, body))
 
 
 def chk_cruncher_cursor(F, E, body, s):
@@ -476,6 +476,49 @@ def chk_line_number_slices(F, E, body, s):
     return all(boundary(x) for x in rng[3])
 
 
+def chk_sync_key(F, E, body, s):
+    """`numbered_lines.get(k).unwrap()`: k is an element of sorted_line_numbers -- taken from an iteration over that set in this
+    function (or its parent for a closure), or a parameter of a private ProgramLines method whose every caller passes such an
+    element."""
+    from lib import callers_of, with_closures, expr_has_field
+    c = s.call
+    if not c.callee.endswith("unwrap") and not c.callee.endswith("expect"):
+        return False
+    opt = strip_expr(body.expr(c.args[0], depth=30))
+    gets = [x for x in expr_calls(opt) if x[1].split("::")[-1] == "get" and "HashMap" in x[1]]
+    if not gets or len(gets[0][2]) < 2:
+        return False
+    recv, key = gets[0][2][0], gets[0][2][1]
+    if not expr_has_field(recv, "numbered_lines"):
+        return False
+
+    def from_sorted(b, e, depth=0):
+        if expr_has_field(e, "sorted_line_numbers") and any(x[1].split("::")[-1] in ("next", "next_back") for x in expr_calls(e)):
+            return True
+        e0 = strip_expr(e)
+        while e0[0] in ("ref", "place") and isinstance(e0[1], tuple):
+            e0 = strip_expr(e0[1])
+        if e0[0] == "param" and depth < 2:
+            if "{closure" in b.path:
+                # the closure's argument: the element type of the iterator it is mapped over, in the parent
+                parent = F.bodies.get(b.path.split("::{closure", 1)[0])
+                if parent is None:
+                    return False
+                for pc in parent.calls():
+                    for a in pc.args[1:]:
+                        ae = strip_expr(parent.expr(a))
+                        if ae[0] == "agg" and ae[1] == b.path and pc.callee.split("::")[-1] in ("map", "for_each", "filter_map", "flat_map", "fold", "try_for_each"):
+                            if expr_has_field(parent.expr(pc.args[0], depth=30), "sorted_line_numbers"):
+                                return True
+                # or a capture of the parent
+                return False
+            if b.self_adt and b.self_adt.endswith("program_lines::ProgramLines") and not b.is_pub:
+                cs = [(cb, cc) for (cb, cc) in callers_of(F, b.path.split("::", 1)[1]) if cc.callee == b.path]
+                return bool(cs) and all(from_sorted(cb, cb.expr(cc.args[e0[1]], depth=30), depth + 1) for (cb, cc) in cs)
+        return False
+    return from_sorted(body, key)
+
+
 R = {}
 
 
@@ -522,7 +565,7 @@ row(P + "program::Program::tokens_for_line|unwrap|unwrap|of:get", "INV-LOC",
 for fn in ("program_lines::ProgramLines::data_iterator", "program_lines::ProgramLines::list_tokens",
            "<abasic_core::program_lines::ProgramLines as core::fmt::Debug>::fmt"):
     row((P if not fn.startswith("<") else "") + fn + "|unwrap|unwrap|of:get", "INV-SYNC",
-        "keys iterated from sorted_line_numbers are exactly the keys of numbered_lines (C04 paired update)")
+        "keys iterated from sorted_line_numbers are exactly the keys of numbered_lines (C04 paired update)", chk_sync_key)
 # ---- interpreter
 row(P + "interpreter::Interpreter::stop_evaluating|unwrap|unwrap|of:run_next_statement", "INV-EMPTY-IMMEDIATE",
     "run_next_statement on an empty immediate line evaluates nothing and returns Ok", chk_stop_evaluating)
